@@ -702,6 +702,14 @@ func (en *env) call(x *ast.CallExpr, want types.Type) TV {
 				cs = append(cs, c.Op("<", nil, ref, cnt))
 			}
 			return TV{V: Scalar{c.And(cs...)}, T: types.Typ[types.Bool]}
+		case "ref":
+			// ref(x): the reference (object identity) of a pointer or of a slice's backing array, 0 for nil
+			a := en.eval(x.Args[0], nil)
+			refs := refsOf(a.V)
+			if len(refs) != 1 {
+				en.errf("ref() needs a slice or pointer")
+			}
+			return TV{V: Scalar{refs[0]}, T: &RawSort{S: smt.Int}}
 		case "visible_unchanged":
 			// visible_unchanged(s): no backing array of s's element type that existed at function entry has
 			// changed (loop-invariant form of the frame: the loop writes only to arrays it allocated)
@@ -1042,6 +1050,21 @@ func (en *env) quantifier(forall bool, x *ast.CallExpr) TV {
 		}
 		pats = append(pats, p)
 	}
+	if len(pats) == 0 {
+		// s[i] under a quantifier reads (select arr (+ off i)); solvers normalise sums, so a ground read at
+		// off + (r+1) no longer matches that shape. Quantify over the array position itself instead:
+		// i := j - off, (+ off i) := j (only when every read that mentions i has this one shape).
+		g := c.And(guards...)
+		for k, bv := range bound {
+			if bv.Sort != smt.Int {
+				continue
+			}
+			if nb, nbody, ng, ok := shiftIndexVar(c, bv, body, g); ok {
+				bound[k], body, g = nb, nbody, ng
+			}
+		}
+		guards = []*smt.Term{g}
+	}
 	if forall {
 		return TV{V: Scalar{c.Forall(bound, c.Implies(c.And(guards...), body), pats...)}, T: types.Typ[types.Bool]}
 	}
@@ -1310,7 +1333,200 @@ func splitClauseAST(e ast.Expr) []ast.Expr {
 func (en *env) evalGoalParts(e ast.Expr) []*smt.Term {
 	var out []*smt.Term
 	for _, p := range splitClauseAST(e) {
-		out = append(out, en.evalBool(p))
+		t := en.evalBool(p)
+		if smt.HasQuantifier(t) {
+			// forall k :: g ==> (A && B && forall a :: C) is proved as one goal per conjunct, with the nested
+			// quantifier pulled out: each part is a far easier instantiation problem for the solvers
+			if parts := splitQuantGoal(en.r.C(), t, 24); len(parts) > 1 {
+				out = append(out, parts...)
+				continue
+			}
+		}
+		out = append(out, t)
+	}
+	return out
+}
+
+// shiftIndexVar: if every array read in body/guard whose index mentions the bound variable bv has the index
+// (+ O bv) for one and the same O (free of bv), returns the formula re-expressed over a new bound variable
+// j standing for O + bv:  (+ O bv) := j,  bv := j - O.
+func shiftIndexVar(c *smt.Ctx, bv, body, guard *smt.Term) (nb, nbody, nguard *smt.Term, ok bool) {
+	mentions := map[*smt.Term]bool{}
+	var has func(t *smt.Term) bool
+	has = func(t *smt.Term) bool {
+		if t == bv {
+			return true
+		}
+		if !t.HasBound {
+			return false
+		}
+		if v, ok := mentions[t]; ok {
+			return v
+		}
+		v := false
+		if t.Op != "select" && t.Op != "app" {
+			// (a read or function value that depends on bv is an opaque position, judged on its own)
+			for _, a := range t.Args {
+				if has(a) {
+					v = true
+					break
+				}
+			}
+		}
+		mentions[t] = v
+		return v
+	}
+	var off *smt.Term
+	good := true
+	seen := map[*smt.Term]bool{}
+	var walk func(t *smt.Term)
+	walk = func(t *smt.Term) {
+		if !good || seen[t] || !t.HasBound {
+			return
+		}
+		seen[t] = true
+		if t.Op == "select" && has(t.Args[1]) {
+			ix := t.Args[1]
+			var o *smt.Term
+			if ix.Op == "+" && len(ix.Args) == 2 {
+				switch {
+				case ix.Args[0] == bv && !has(ix.Args[1]):
+					o = ix.Args[1]
+				case ix.Args[1] == bv && !has(ix.Args[0]):
+					o = ix.Args[0]
+				}
+			}
+			if o != nil && termMentions(o, bv) {
+				o = nil
+			}
+			if o == nil || (off != nil && off != o) {
+				good = false
+				return
+			}
+			off = o
+		}
+		for _, a := range t.Args {
+			walk(a)
+		}
+	}
+	walk(body)
+	walk(guard)
+	if !good || off == nil {
+		return nil, nil, nil, false
+	}
+	nb = c.BoundVar(strings.SplitN(bv.Name, "?", 2)[0]+"@", smt.Int)
+	m := map[*smt.Term]*smt.Term{
+		c.Op("+", nil, off, bv): nb,
+		c.Op("+", nil, bv, off): nb,
+		bv:                      c.Op("-", nil, nb, off),
+	}
+	return nb, c.Subst(body, m), c.Subst(guard, m), true
+}
+
+// termMentions: v occurs anywhere in t.
+func termMentions(t, v *smt.Term) bool {
+	seen := map[*smt.Term]bool{}
+	var rec func(t *smt.Term) bool
+	rec = func(t *smt.Term) bool {
+		if t == v {
+			return true
+		}
+		if seen[t] || !t.HasBound {
+			return false
+		}
+		seen[t] = true
+		for _, a := range t.Args {
+			if rec(a) {
+				return true
+			}
+		}
+		return false
+	}
+	return rec(t)
+}
+
+// splitQuantGoal distributes universal quantifiers and implications over conjunctions in the goal t:
+// the conjunction of the returned parts is equivalent to t. Gives up (returns nil) beyond limit parts.
+func splitQuantGoal(c *smt.Ctx, t *smt.Term, limit int) []*smt.Term {
+	// a part is  forall bounds :: guards ==> core  (bound names are unique per quantifier, so pulling an
+	// inner quantifier across an outer guard cannot capture anything)
+	type part struct {
+		bounds []*smt.Term
+		guards []*smt.Term
+		core   *smt.Term
+	}
+	over := false
+	var split func(t *smt.Term) []part
+	split = func(t *smt.Term) []part {
+		if over {
+			return []part{{core: t}}
+		}
+		switch t.Op {
+		case "and":
+			var out []part
+			for _, a := range t.Args {
+				out = append(out, split(a)...)
+			}
+			if len(out) > limit {
+				over = true
+			}
+			return out
+		case "=>":
+			if len(t.Args) == 2 {
+				var out []part
+				for _, p := range split(t.Args[1]) {
+					out = append(out, part{p.bounds, append([]*smt.Term{t.Args[0]}, p.guards...), p.core})
+				}
+				return out
+			}
+		case "forall":
+			if len(t.Pats) > 0 {
+				break // explicit triggers belong to this exact shape
+			}
+			var out []part
+			for _, p := range split(t.Args[0]) {
+				out = append(out, part{append(append([]*smt.Term(nil), t.Bound...), p.bounds...), p.guards, p.core})
+			}
+			return out
+		}
+		return []part{{core: t}}
+	}
+	parts := split(t)
+	if over || len(parts) <= 1 {
+		return nil
+	}
+	var out []*smt.Term
+	for _, p := range parts {
+		body := c.Implies(c.And(p.guards...), p.core)
+		if len(p.bounds) > 0 {
+			// keep only the bound variables the part mentions
+			used := map[int]bool{}
+			var walk func(t *smt.Term)
+			seen := map[int]bool{}
+			walk = func(t *smt.Term) {
+				if seen[t.ID] {
+					return
+				}
+				seen[t.ID] = true
+				if t.IsBound {
+					used[t.ID] = true
+				}
+				for _, a := range t.Args {
+					walk(a)
+				}
+			}
+			walk(body)
+			var bs []*smt.Term
+			for _, b := range p.bounds {
+				if used[b.ID] {
+					bs = append(bs, b)
+				}
+			}
+			if len(bs) > 0 {
+				body = c.Forall(bs, body)
+			}
+		}
+		out = append(out, body)
 	}
 	return out
 }
